@@ -365,6 +365,45 @@ S.append(Schema('leftrec_memo_inner', [Rule('R', Seq(F('l', 0, Ref('L')), Opt(fc
     post='        if max_count(0) > 1 { return Err("C06: the body of a @memoize rule was evaluated more than once at one position"); }',
     note='@leftrec L = l:*L b:B | t:T with @memoize T = a:A: growing the left-recursive match re-requests T at the same position; it is answered from the cache'))
 
+# ---------------------------------------------------------------------------------------------- nesting (two or three constructs deep)
+S.append(Schema('nest_closure_choice', [Rule('R', Seq(Star(Grp(Alt(fa(), Seq(fb(), fc())))), Eoi()), skip=False, export=True)], 'R', 'ABC', n=3, nonzero='AB',
+    props=('C01', 'C02', 'C03', 'C10'),
+    extract=J(ty('v.a', 'Vec<A>'), ty('v.b', 'Vec<B>'), ty('v.c', 'Vec<C>'), vec(0, 'v.a'), vec(1, 'v.b'), vec(2, 'v.c')),
+    note='{(a:A | b:B c:C)} $: ordered choice inside a closure, an abandoned second alternative leaves no trace'))
+
+S.append(Schema('nest_opt_closure_opt', [Rule('R', Seq(Opt(Seq(fa(), Star(Seq(fb(), Opt(fc()))))), fd()), skip=False, export=True)], 'R', 'ABCD', n=2, nonzero='B',
+    props=('C01', 'C02', 'C03', 'C10'),
+    extract=J(ty('v.a', 'Option<A>'), ty('v.b', 'Vec<B>'), ty('v.c', 'Vec<C>'), opt(0, 'v.a'), vec(1, 'v.b'), vec(2, 'v.c'), one(3, 'v.d')),
+    note='[a:A {b:B [c:C]}] d:D: optional inside a closure inside an optional'))
+
+S.append(Schema('nest_choice_in_choice', [Rule('R', Alt(Seq(fa(), Grp(Alt(fb(), fc()))), Seq(fa(), fc()), fb()), skip=False, export=True)], 'R', 'ABC', n=3,
+    props=('C01', 'C02', 'C03', 'C10'),
+    extract=J(ty('v.a', 'Option<A>'), ty('v.b', 'Option<B>'), ty('v.c', 'Option<C>'), opt(0, 'v.a'), opt(1, 'v.b'), opt(2, 'v.c')),
+    note='a:A (b:B | c:C) | a:A c:C | b:B: choice inside a choice arm; the outer choice commits to its first matching alternative'))
+
+S.append(Schema('nest_lookahead_closure', [Rule('R', Seq(Star(Seq(Not(B), fa())), Opt(And(Seq(B, C))), Opt(fb())), skip=False, export=True)], 'R', 'ABC', n=3, nonzero='A',
+    props=('C01', 'C02', 'C10'),
+    extract=J(vec(0, 'v.a'), opt(1, 'v.b')),
+    note='{!B a:A} [&(B C)] [b:B]: lookaheads inside a closure and an optional'))
+
+S.append(Schema('nest_closure_in_closure', [Rule('R', Seq(Plus(Seq(fa(), Star(fb()))), Eoi()), skip=False, export=True)], 'R', 'AB', n=4, nonzero='AB',
+    props=('C01', 'C02', 'C03'),
+    extract=J(ty('v.a', 'Vec<A>'), ty('v.b', 'Vec<B>'), vec(0, 'v.a'), vec(1, 'v.b')),
+    note='{a:A {b:B}}+ $: closure inside a closure'))
+
+S.append(Schema('nest_rule_chain', [Rule('R', Seq(F('x', 0, Ref('X')), Opt(fd())), skip=False, export=True),
+                                    Rule('X', Alt(F('y', 0, Ref('Y')), fc()), skip=False),
+                                    Rule('Y', Seq(fa(), Opt(fb())), skip=False)], 'R', 'ABCD', n=2,
+    props=('C01', 'C02', 'C03', 'C10'),
+    extract=J(ty('v.x.y', 'Option<Y>'), '                if let Some(y) = &v.x.y { o.f[0].push(y.a); if let Some(b) = y.b { o.f[1].push(b); } }', opt(2, 'v.x.c'), opt(3, 'v.d')),
+    note='R = x:X [d:D]; X = y:Y | c:C; Y = a:A [b:B]: struct rules three deep'))
+
+S.append(Schema('nest_skip_mix', [Rule('R', Seq(fa(), Star(Seq(Lit('y'), F('n', 0, Ref('N')))), Eoi()), export=True),
+                                  Rule('N', Seq(fb(), Opt(Lit('y'))), skip=False)], 'R', 'AB', n=4, alphabet='x y', nonzero='',
+    props=('C08', 'C01', 'C02'),
+    extract=J(one(0, 'v.a'), '                for n in v.n.iter() { o.f[1].push(n.b); }'),
+    note="a:A {'y' n:N} $ with @no_skip_ws N = b:B ['y']: a skipping closure around a non-skipping rule"))
+
 # ---------------------------------------------------------------------------------------------- extern / context / tracing
 S.append(Schema('extern_ctx', [Rule('R', Seq(fa(), Opt(fb())), export=True)], 'R', 'AB', n=3, alphabet='x ', user_ctx='crate::ops::Ctx',
     props=('C14',), extract=J(one(0, 'v.a'), opt(1, 'v.b')),
